@@ -15,9 +15,10 @@ RULE = ('random histories over {parse ok (bindings, macros, imports, references)
         '(with include), parse_config_files_and_bindings(finalize_config=True), bind_parameter (also of a macro, of an unknown configurable, under lock), '
         'probe calls in scopes (operative record), a configurable raising mid-call, finalize ok / rejected / with a hook registered mid-history, '
         'unlock_config block, singleton use (reference and singleton_value), gin.constant incl. duplicates and overlapping names defined in interactive mode '
-        '(exact-match and ambiguous overlaps, either order), constants_from_enum, configurables registered mid-history (external_configurable / register / '
+        '(exact-match and ambiguous overlaps, either order), constants with special values or names (the gin.REQUIRED object under another name - bound '
+        'and overridden or left in place -, falsy values, last component REQUIRED, gin.* namespace), constants_from_enum, configurables registered mid-history (external_configurable / register / '
         'configurable / dynamic-registration parse)} followed by clear_config() or clear_config(clear_constants=True), possibly several rounds; oracle: a '
-        'small model of the round (store, lock, macros, constants) predicts finalize accepted / rejected, the bindings in effect and the lock flag before '
+        'small model of the round (store, lock, macros, constants) predicts finalize accepted / rejected (unbound macro, binding left on a constant that is gin.REQUIRED), the bindings in effect and the lock flag before '
         'the clear; the clear does not raise and every observable equals the pristine baseline recorded in the same worker right after registration: '
         'config_str, operative_config_str, lock flag, every previously bound key unqueryable, probes receive only defaults, singletons reconstructed, no '
         'recorded imports, constants identical (same names, same objects; every abbreviation of every surviving constant resolves / is ambiguous exactly as '
@@ -33,7 +34,10 @@ OPS = ['parse', 'parse-fails', 'bind', 'call', 'finalize', 'finalize-rejected', 
        'constant-interactive-overlap', 'enum', 'import', 'call-then-bind-then-call',
        # added after the audit of the check
        'parse-macro-ref-unbound', 'parse-file', 'files-and-bindings-finalize', 'bind-macro', 'singleton-direct', 'finalize-hook', 'bind-unknown',
-       'import-fails', 'call-raises', 'constant-duplicate', 'constant-overlap-ambiguous', 'register-mid-history', 'dynamic-registration']
+       'import-fails', 'call-raises', 'constant-duplicate', 'constant-overlap-ambiguous', 'register-mid-history', 'dynamic-registration',
+       # constants whose VALUE or NAME is special: the gin.REQUIRED object itself under another name (a project-level alias of the marker), falsy
+       # values, a name whose last component is REQUIRED, a name in the gin.* namespace: "only gin.REQUIRED remains" is about the one NAME
+       'constant-special-value']
 # further workloads for the property's online monitor (vf/online.py): the repository's tests and other checks' generated cases
 ONLINE = {'which': ['clear'], 'foreign': ['C01', 'C04', 'C05', 'C06', 'C07', 'C10', 'C11', 'C12', 'C13', 'C17'], 'n': {'quick': 30, 'thorough': 400}}
 REQUIRED_BUCKETS = ['op:' + o for o in OPS] + ['clear:keep-constants', 'clear:clear-constants', 'state:locked-at-clear', 'state:operative-nonempty-at-clear',
@@ -45,6 +49,12 @@ REQUIRED_BUCKETS = ['op:' + o for o in OPS] + ['clear:keep-constants', 'clear:cl
                                                 'lookup:delivered-to-call-after-keep-clear', 'lookup:enum-after-keep-clear',
                                                 'cleared:enum-name-free', 'cleared:overlap-name-free', 'cleared:every-abbreviation-unanswered',
                                                 'registered:mid-history-checked-after-clear', 'registered:dynamic-checked-after-clear',
+                                                'state:sentinel-valued-constant-at-clear:clear-constants', 'state:sentinel-valued-constant-at-clear:keep-constants',
+                                                'state:falsy-constant-at-clear:clear-constants', 'state:falsy-constant-at-clear:keep-constants',
+                                                'state:constant-named-like-sentinel-at-clear:clear-constants', 'state:constant-in-gin-namespace-at-clear:clear-constants',
+                                                'model:finalize-rejected-required-constant', 'model:finalize-accepted-required-constant-overridden',
+                                                'cleared:special-name-free', 'cleared:sentinel-alias-name-free', 'lookup:sentinel-alias-after-keep-clear',
+                                                'lookup:sentinel-alias-delivered-to-call-after-keep-clear', 'lookup:falsy-constant-after-keep-clear',
                                                 'singleton:direct-checked-after-clear', 'hook:registered-mid-history',
                                                 'fresh:compared'] + ['fresh:program-%d' % i for i in range(8)]
 ORACLE_COUNTERS = ['oracle_evals', 'clears_checked']
@@ -56,6 +66,12 @@ FULL_PARSE = "c20f.x = %d\nsc/c20f.y = [1, @c20g()]\nc20m = 'macro'\nc20g.a = %%
 PROBE_SCOPES = ['', 'sc', 'a/b', 'x/y/z', 'file', 'hk']
 DYNAMIC_TARGETS = [('decoder', 'JSONDecoder', 'strict', False, True), ('encoder', 'JSONEncoder', 'sort_keys', True, False)]
 MARK = '@@C20FRESH@@'
+SENTINEL = '<the gin.REQUIRED object>'
+# values of the 'constant-special-value' constants (chosen by the operation counter); SENTINEL stands for gin.REQUIRED itself
+SPECIAL_CONSTANT_VALUES = [SENTINEL, None, False, SENTINEL, 0, '', ()]
+# their names: ordinary / last component spelled like the sentinel's / in the sentinel's namespace
+SPECIAL_CONSTANT_NAMES = [('c20.v{k}.SPECIAL{k}', 'SPECIAL{k}', 'plain'), ('c20.v{k}.REQUIRED', 'v{k}.REQUIRED', 'named-like-sentinel'),
+                          ('gin.v{k}.SPECIAL{k}', 'SPECIAL{k}', 'in-gin-namespace')]
 
 # Programs of operations run right after a clear_config and, once per worker, in a fresh interpreter with the same registrations (no history, no
 # clear_config). They use no constants (constants may legitimately survive the clear) and no finalize hook, and nothing registered mid-history.
@@ -263,10 +279,15 @@ def compare_with_fresh(ctx, idx, cc):
 
 class Model:
 
-  def __init__(self, consts):
+  def __init__(self, consts, sentinel=None):
     self.store = {}       # binding key as written -> ('lit', v) | ('obj',) | ('ref',) | ('macro', name) | ('const', full name)
     self.locked = False
     self.consts = consts  # full name -> value (survives rounds unless cleared)
+    self.sentinel = sentinel    # the gin.REQUIRED object
+
+  def required_constant(self):
+    """A binding still refers to a constant that IS the gin.REQUIRED object (under whatever name): finalize rejects it as never overridden."""
+    return any(d[0] == 'const' and self.consts.get(d[1], 0) is self.sentinel for d in self.store.values())
 
   def unbound_macro(self):
     return any(d[0] == 'macro' and ('%' + d[1]) not in self.store for d in self.store.values())
@@ -334,7 +355,7 @@ def run_case(ctx, case):
   registered = []     # (object handed to get_configurable, selector, arg) registered during this case's histories
   dynamic = set()
   for rno, rnd in enumerate(case['rounds']):
-    M = Model(consts)
+    M = Model(consts, gin.REQUIRED)
     bound_keys = []
     short_names = []
     used_scopes = set()
@@ -373,19 +394,24 @@ def run_case(ctx, case):
       if updates_before and not was_locked:
         M.store.update(updates_before)
         bound_keys.extend(updates_before)
-      expect_rejected = was_locked or M.unbound_macro()
+      expect_rejected = was_locked or M.unbound_macro() or M.required_constant()
       if was_locked:
         ctx.bucket('model:finalize-rejected-already-locked')
+      elif M.required_constant():
+        ctx.bucket('model:finalize-rejected-required-constant')
       elif expect_rejected:
         ctx.bucket('model:finalize-rejected-unbound-macro')
         if rno:
           ctx.bucket('model:finalize-rejected-unbound-macro-in-later-round')
       else:
         ctx.bucket('model:finalize-accepted')
+        if M.store.get('c20f.y') == ('lit', 'required-overridden'):
+          ctx.bucket('model:finalize-accepted-required-constant-overridden')
       ctx.check((rejected is not None) == expect_rejected, 'finalize-outcome-differs-from-fresh-process',
-                'round %d: finalize %s although the configuration is %s and %s binding refers to an unbound macro (bindings %r)'
+                'round %d: finalize %s although the configuration is %s, %s binding refers to an unbound macro and %s binding is a constant holding '
+                'gin.REQUIRED (bindings %r)'
                 % (rno + 1, 'rejected with %r' % (rejected,) if rejected is not None else 'accepted', 'locked' if was_locked else 'unlocked',
-                   'a' if M.unbound_macro() else 'no', sorted(M.store)))
+                   'a' if M.unbound_macro() else 'no', 'a' if M.required_constant() else 'no', sorted(M.store)))
       if rejected is None:
         M.locked = True
       return rejected is None
@@ -517,7 +543,7 @@ def run_case(ctx, case):
           # look it up through abbreviations, as config files do
           ctx.check(gin.query_parameter('CONST%d' % k) == ('const', k) and gin.query_parameter('k%d.CONST%d' % (k, k)) == ('const', k), 'constant-lookup', 'lookup by suffix failed')
           mutate(lambda: gin.parse_config('c20f.y = %%CONST%d' % k), {'c20f.y': ('const', full)}, unlock=True)
-          short_names.append('CONST%d' % k)
+          short_names.append(('CONST%d' % k, 'plain'))
         elif op == 'constant-duplicate':
           full, value, again = 'c20.d%d.DUP%d' % (k, k), ('dup', k), ('dup-again', k)
           gin.constant(full, value)
@@ -535,7 +561,7 @@ def run_case(ctx, case):
             gin.constant('OVER%d' % k, inner)
             consts['OVER%d' % k] = inner
           overlapping = True
-          short_names.append('OVER%d' % k)
+          short_names.append(('OVER%d' % k, 'overlap'))
         elif op == 'constant-overlap-ambiguous':
           # pkg.sched.RATE and sched.RATE, either order: %RATE is ambiguous, %sched.RATE is the shorter one
           pair = [('c20.p%d.sched%d.RATE%d' % (k, k, k), ('outer-rate', k)), ('sched%d.RATE%d' % (k, k), ('inner-rate', k))]
@@ -544,13 +570,31 @@ def run_case(ctx, case):
               gin.constant(name, value)
               consts[name] = value
           overlapping = True
-          short_names.append('sched%d.RATE%d' % (k, k))
+          short_names.append(('sched%d.RATE%d' % (k, k), 'overlap'))
+        elif op == 'constant-special-value':
+          value = SPECIAL_CONSTANT_VALUES[k % len(SPECIAL_CONSTANT_VALUES)]
+          value = gin.REQUIRED if value is SENTINEL else value
+          fmt_full, fmt_short, _ = SPECIAL_CONSTANT_NAMES[(k // len(SPECIAL_CONSTANT_VALUES)) % len(SPECIAL_CONSTANT_NAMES)]
+          full, short = fmt_full.format(k=k), fmt_short.format(k=k)
+          gin.constant(full, value)
+          consts[full] = value
+          ctx.check(all(gin.query_parameter(p) is value for p in suffixes(full) if const_matches(list(consts), p) == [full]), 'constant-lookup',
+                    'lookup of the constant %s = %r by suffix failed' % (full, value))
+          if value is gin.REQUIRED and (k // 3) % 2:
+            # the marker's ordinary use: bound through its alias, then overridden
+            mutate(lambda: gin.parse_config("c20f.y = %%%s\nc20f.y = 'required-overridden'\n" % short), {'c20f.y': ('lit', 'required-overridden')}, unlock=True)
+          else:
+            # left in place: delivered as it is; if it is the marker, a later finalize of this round rejects it
+            mutate(lambda: gin.parse_config('c20f.y = %%%s\n' % short), {'c20f.y': ('const', full)}, unlock=True)
+          if value is gin.REQUIRED and (k // 6) % 2:
+            finalize_like(gin.finalize)     # rejected while the alias is in place, accepted (if nothing else stands in the way) once overridden
+          short_names.append((short, 'special-sentinel' if value is gin.REQUIRED else 'special'))
         elif op == 'enum':
           E = enum.Enum('E%d' % k, 'RED GREEN')
           gin.config.constants_from_enum(E, module='c20.enums')
           consts['c20.enums.E%d.RED' % k] = E.RED
           consts['c20.enums.E%d.GREEN' % k] = E.GREEN
-          short_names.append('E%d.RED' % k)
+          short_names.append(('E%d.RED' % k, 'enum'))
         elif op == 'import':
           with gin.unlock_config():
             gin.parse_config('import os.path\nfrom json import decoder as dec%d\n' % k)
@@ -603,7 +647,8 @@ def run_case(ctx, case):
         okx = (recv['x'] == 0) if ex is None else (type(recv['x']) is object) if ex[0] == 'obj' else (recv['x'] == ex[1])
         wanty = 'd' if ey is None else ey[1] if ey[0] == 'lit' else consts.get(ey[1])
         ctx.bucket('model:deliveries-checked-before-clear')
-        ctx.check(okx and recv['y'] == wanty, 'binding-made-after-clear-not-delivered',
+        oky = (recv['y'] is wanty) if ey is not None and ey[0] == 'const' else (recv['y'] == wanty)
+        ctx.check(okx and oky, 'binding-made-after-clear-not-delivered',
                   'round %d: under scope %r c20f received %r; the bindings in effect are x: %r, y: %r' % (rno + 1, sc, recv, ex, ey))
     # ---- state at the moment of the clear
     if gin.config_is_locked():
@@ -619,6 +664,9 @@ def run_case(ctx, case):
     consts_before = constants_view(gc)
     cc = rnd['clear_constants']
     ctx.bucket('clear:clear-constants' if cc else 'clear:keep-constants')
+    for name, value in consts.items():
+      for what in special_constant(gin, name, value):
+        ctx.bucket('state:%s-at-clear:%s' % (what, 'clear-constants' if cc else 'keep-constants'))
     ctx.count('clears_checked')
     try:
       gin.clear_config(clear_constants=True) if cc else gin.clear_config()
@@ -720,12 +768,16 @@ def run_case(ctx, case):
                   'after clear_config json.%s.%s, registered by a dynamic-registration parse during the history, %s' % (mod, cls, msg))
       if cc:
         # the cleared constants are really gone: their abbreviations are free again (as macro names and for new constants)
-        for sn in short_names:
+        for sn, kind in short_names:
           ctx.bucket('state:abbreviation-looked-up-before-clear')
-          if sn.startswith('E'):
+          if kind == 'enum':
             ctx.bucket('cleared:enum-name-free')
-          elif not sn.startswith('CONST'):
+          elif kind == 'overlap':
             ctx.bucket('cleared:overlap-name-free')
+          elif kind.startswith('special'):
+            ctx.bucket('cleared:special-name-free')
+            if kind == 'special-sentinel':
+              ctx.bucket('cleared:sentinel-alias-name-free')
           try:
             gin.constant(sn, 'redefined')
             ok = gin.query_parameter(sn) == 'redefined'
@@ -744,9 +796,15 @@ def run_case(ctx, case):
         # the surviving constants reach a call through %NAME under every abbreviation the suffix model resolves; ambiguous ones are rejected
         gin.clear_config()
         step = max(1, len(lookups) // 4)
-        for partial, matches in lookups[len(rnd['ops']) % step::step][:5]:
+        sample = lookups[len(rnd['ops']) % step::step][:5]
+        # and always some of the constants with special values or names, the marker's aliases first
+        special = [l for l in lookups if len(l[1]) == 1 and l not in sample and special_constant(gin, l[1][0], consts[l[1][0]])]
+        special.sort(key=lambda l: consts[l[1][0]] is not gin.REQUIRED)
+        for partial, matches in sample + special[:2]:
           if matches == ['gin.REQUIRED']:
             continue
+          if len(matches) == 1 and consts[matches[0]] is gin.REQUIRED:
+            ctx.bucket('lookup:sentinel-alias-delivered-to-call-after-keep-clear')
           try:
             gin.parse_config('c20f.y = %%%s\n' % partial)
             recv = None
@@ -804,6 +862,11 @@ def check_constant_queries(ctx, gin, consts, cc):
           ctx.bucket('lookup:overlap-exact-after-keep-clear')
         if '.enums.' in matches[0]:
           ctx.bucket('lookup:enum-after-keep-clear')
+        what = special_constant(gin, matches[0], consts[matches[0]])
+        if 'sentinel-valued-constant' in what:
+          ctx.bucket('lookup:sentinel-alias-after-keep-clear')
+        if 'falsy-constant' in what:
+          ctx.bucket('lookup:falsy-constant-after-keep-clear')
         ctx.check(answered and got is consts[matches[0]], 'constant-lookup-after-clear',
                   'after clear_config() query_parameter(%r) gives %r; the constant %s defined before the clear is %r' % (partial, got, matches[0], consts[matches[0]]))
       else:
@@ -811,6 +874,22 @@ def check_constant_queries(ctx, gin, consts, cc):
         ctx.check(not answered, 'constant-lookup-after-clear',
                   'after clear_config() query_parameter(%r) answers %r although the constants %r all match it (ambiguous before the clear)' % (partial, got, matches))
   return lookups
+
+
+def special_constant(gin, name, value):
+  """In which ways a constant of the history could be mistaken for (or with) the gin.REQUIRED entry."""
+  if name == 'gin.REQUIRED':
+    return []
+  what = []
+  if value is gin.REQUIRED:
+    what.append('sentinel-valued-constant')
+  elif isinstance(value, (type(None), bool, int, float, str, tuple)) and not value:
+    what.append('falsy-constant')
+  if name.endswith('.REQUIRED'):
+    what.append('constant-named-like-sentinel')
+  if name.startswith('gin.'):
+    what.append('constant-in-gin-namespace')
+  return what
 
 
 def has_overlap(consts):
